@@ -17,8 +17,10 @@ def fn_ids():
     global _ids
     if _ids is None:
         _ids = {}
-        for m in re.finditer(r"\|\s*(\d+)\s*\(\*\s*(\w+)\s*\*\)", open(DRIVER_V).read()):
-            _ids[m.group(2)] = int(m.group(1))
+        import glob
+        for path in sorted(glob.glob(os.path.join(VERIF, "coq", "Driver*.v"))):
+            for m in re.finditer(r"\|\s*(\d+)\s*\(\*\s*(\w+)\s*\*\)", open(path).read()):
+                _ids[m.group(2)] = int(m.group(1))
     return _ids
 
 
